@@ -19,6 +19,10 @@ import (
 //		- the ID of the key to use for signing, as a DID, either with a fragment identifier to specify a verification
 //		  method, or without, in which case the first Authentication or Assertion verification method is used.
 func (c *Wallet) SignJWT(authToken string, headers, claims map[string]interface{}, kid string) (string, error) {
+	if err := c.checkAuth(authToken); err != nil {
+		return "", err
+	}
+
 	session, err := sessionManager().getSession(authToken)
 	if err != nil {
 		return "", wrapSessionError(err)
